@@ -1416,6 +1416,7 @@ class WebSocketClientConnection(simple_httpclient._HTTPConnection):
         self.read_queue: Queue[None | str | bytes] = Queue(1)
         self.key = base64.b64encode(os.urandom(16))
         self._on_message_callback = on_message_callback
+        self._subprotocols = subprotocols
         self.close_code: int | None = None
         self.close_reason: str | None = None
         self.params = _WebSocketParams(
@@ -1528,6 +1529,13 @@ class WebSocketClientConnection(simple_httpclient._HTTPConnection):
         self.headers = headers
         self.protocol = self.get_websocket_protocol()
         self.protocol._process_server_headers(self.key, self.headers)
+        selected = self.protocol.selected_subprotocol
+        if selected is not None and selected not in (self._subprotocols or []):
+            # The server may only select one of the subprotocols we offered
+            # (RFC 6455 section 4.1); anything else fails the connection.
+            raise WebSocketError(
+                "server selected subprotocol %r, which was not offered" % selected
+            )
         self.protocol.stream = self.connection.detach()
 
         IOLoop.current().add_callback(self.protocol._receive_frame_loop)
